@@ -88,3 +88,15 @@ Theorem c01_two_commits_fail_closed :
   C01_monitor (model_case f1_cfg f1_two_commits_ops) = 0.
 Proof. exact f1_two_commits_fail_closed. Qed.
 Print Assumptions c01_two_commits_fail_closed.
+
+(* c01_partial / c01_model_satisfies_monitor, BOUNDED (finite domain, vm_compute), 3 voters, quorum 2:
+   (a) all 3906 schedules of at most 5 operations over {bare-quorum commit, full commit, failover install
+       on node 2, commit by node 2, restart of node 2} after the initial install — every voter answers
+       every recovery probe (the probe_covers situation): the monitor returns 0, every acknowledged
+       entry is on every later installed leader;
+   (b) all 7381 schedules of at most 4 operations when nodes 1 and 3 may also go down / come back:
+       the monitor returns 0 or the known-finding code 2, never 1. *)
+Theorem c01_model_satisfies_monitor_bounded :
+  c01_codes_in [0] (c01_alphabet false) 5 = true /\ c01_codes_in [0; 2] (c01_alphabet true) 4 = true.
+Proof. exact (conj c01_bounded_all_answer c01_bounded_with_outages). Qed.
+Print Assumptions c01_model_satisfies_monitor_bounded.
